@@ -1,11 +1,34 @@
 import JF.Model.Potential.Displacement
 import JF.Lemmas.DisplacementReal
+import JF.Lemmas.DisplacementCoulomb
+import JF.Lemmas.DisplacementHat
+import JF.Lemmas.DisplacementLJ
 /-!
 # C02 — Candidate event distance inverts the cumulative uphill energy exactly
 
-Theorems about the real-number reading (`JF/Lemmas/DisplacementReal.lean`) of the displacement routines
-modelled in `JF/Model/Potential/Displacement.lean`.  "Accumulated energy increase" is
-`JF.Uphill.uphill f 0 d`, the positive variation of the path energy `f x = U(sep - x·e)` on `[0, d]`.
+Theorems about the real-number reading (`JF/Lemmas/Displacement{Real,Coulomb,Hat,LJ}.lean`) of the
+displacement routines modelled branch for branch in `JF/Model/Potential/Displacement.lean` (binary64, run
+against the real classes by `harness/props/c02.py`).  "Accumulated energy increase" is
+`JF.Uphill.uphill f 0 d`, the positive variation of the path energy `f x = U(sep - x·e)` on `[0, d]`
+(`JF/Lemmas/DisplacementUphill.lean`: half of total variation plus net change; equals the sum of the
+increments over the increasing stretches of a piecewise monotone function).
+
+Reduction common to all statements: the separation vector enters through `s` (component along the
+direction of motion) and `q` (sum of squares of the other components, `q > 0`: not head-on); the speed
+only divides the returned distance (`speed_scaling`).
+
+* inverse power, both signs: `invPow_some`, `invPow_none_iff` (+ `repulsive_*`, `attractive_*`, `*_total`)
+* hard sphere / hard dipole: `hardSphere_some` (least root), `hardSphere_none_iff`, `hardSphere_speed`,
+  `hardDipole_first`
+* C routine of the periodic `1/r` bound, laps + remainder on the minimum-image path: `cb_inverts`
+  (`cb_repulsive_inverts`, `cb_attractive_inverts`, `cb_laps_split`, `minImage_exists`)
+* Mexican-hat case tree, generic: `hat_some`, `hat_none_iff`; instances `evenPower_inverts`,
+  `evenPower_finite`, `lj_inverts`
+* cell bound: `cellBounding_spec`
+
+All statements are about real numbers.  What binary64 does near turning points of the path (square root
+of a rounding-negative number, `floor`/`fmod` disagreement, …) is *not* covered here; the run found such
+inputs on the unchanged tree, see `known_findings/C02.json`.
 -/
 set_option linter.unusedVariables false
 namespace JF.C02
@@ -419,5 +442,573 @@ example : hardDipole 1 (-3/2) (9/4 - 1) (9/4 - 4) = 1/2 := by
     rw [show (-3/2 : ℝ) * (-3/2) - 1 * (9/4 - 4) = 2 * 2 by norm_num]; exact Real.sqrt_mul_self (by norm_num)
   rw [this]; norm_num
 
+
+/-! ## C routine of the periodic `1/r` bound: whole-box laps + remainder -/
+
+/-- **The split into whole laps and a remainder budget is exact**: with `n = floor(dE / c)` laps, the
+remainder budget `dE - n c` (the C code's `fmod`) lies in `[0, c)`, `n ≥ 0`, and `dE = n c + remainder`.
+The routine returns `n L + (remainder stage)`. -/
+theorem cb_laps_split {K L sx q dE : ℝ} (hc : 0 < cbPerLap K L q) (hE : 0 ≤ dE) :
+    let n := ⌊dE / cbPerLap K L q⌋
+    let r := dE - (n : ℝ) * cbPerLap K L q
+    0 ≤ n ∧ 0 ≤ r ∧ r < cbPerLap K L q ∧
+      cbDisplacement K L sx q dE = (n : ℝ) * L + cbRemainder K L sx q r := by
+  intro n r
+  have h1 : (n : ℝ) ≤ dE / cbPerLap K L q := Int.floor_le _
+  have h2 : dE / cbPerLap K L q < n + 1 := Int.lt_floor_add_one _
+  rw [le_div_iff₀ hc] at h1
+  rw [div_lt_iff₀ hc] at h2
+  refine ⟨Int.floor_nonneg.2 (div_nonneg hE hc.le), by simp only [r]; linarith, by simp only [r]; linarith, rfl⟩
+
+/-- **Remainder stage, repulsive, first climb.**  For `K > 0`, the active unit behind the nearest image
+(`sx > 0`) and a remainder budget below the climb to the closest approach, the C routine's remainder
+stage is the inverse-power routine with power `1` toward that image; hence the returned distance is in
+`[0, sx)` and the uphill energy of the `1/r` potential of the nearest image accumulated along it equals
+the remainder budget.  (Building block of `cb_repulsive_inverts`, which treats all branches and the
+whole-box laps on the minimum-image path.) -/
+theorem cb_remainder_first_climb {K L sx q dE : ℝ} (hK : 0 < K) (hq : 0 < q) (hs : 0 < sx)
+    (hE : 0 ≤ dE) (h : dE < cbPot K 0 q - cbPot K sx q) :
+    let d := cbRemainder K L sx q dE
+    dispRepulsive K 1 sx q dE = some d ∧ 0 ≤ d ∧ d < sx ∧ uphill (path K 1 sx q) 0 d = dE := by
+  intro d
+  have hd : dispRepulsive K 1 sx q dE = some d := by
+    simp only [d, cbRemainder, dispRepulsive, if_pos hK, if_neg (not_le.2 hs), if_neg (not_le.2 h)]
+    rw [cbPot_eq_pot, cbPot_eq_pot] at h
+    rw [if_pos h, rpow_two_div_one, cbPot_eq_pot]
+  obtain ⟨a, b, _, c⟩ := repulsive_some hK one_pos hq hE hd
+  exact ⟨hd, a, b, c⟩
+
+/-- non-vacuity of `cb_laps_split`/`cb_remainder_first_climb`: unit box, `K = 1`, `q = 1/4`:
+the climb per lap is `2 - √2 > 0` -/
+example : 0 < cbPerLap 1 1 (1/4) := by
+  unfold cbPerLap cbPot
+  apply abs_pos.2
+  have h1 : Real.sqrt ((0:ℝ) * 0 + 1/4) = 1/2 := by
+    rw [show (0:ℝ) * 0 + 1/4 = (1/2) * (1/2) by norm_num]; exact Real.sqrt_mul_self (by norm_num)
+  have h2 : (1:ℝ)/2 < Real.sqrt ((1:ℝ)/2 * (1/2) + 1/4) := by
+    rw [show (1:ℝ)/2 = Real.sqrt ((1/2) * (1/2)) from (Real.sqrt_mul_self (by norm_num)).symm]
+    exact Real.sqrt_lt_sqrt (by norm_num) (by norm_num)
+  rw [h1]
+  have h3 : (0:ℝ) < Real.sqrt ((1:ℝ)/2 * (1/2) + 1/4) := by linarith
+  have : (1:ℝ) / Real.sqrt ((1:ℝ)/2 * (1/2) + 1/4) < 1 / (1/2) := by
+    apply div_lt_div_of_pos_left one_pos (by norm_num) h2
+  linarith
+
+
+/-! ## Totality of the real-number reading (inverse power) -/
+
+/-- **No arithmetic failure, repulsive branch**: whenever the routine takes the inversion branch, every
+denominator is non-zero and the argument of the square root is positive. -/
+theorem repulsive_total {K p s q dE : ℝ} (hK : 0 < K) (hp : 0 < p) (hq : 0 < q) (hE : 0 ≤ dE)
+    (hs : 0 < s) (h2 : dE < pot K p (0 * 0 + q) - pot K p (s * s + q)) :
+    (0 * 0 + q) ^ (p / 2) ≠ 0 ∧ (s * s + q) ^ (p / 2) ≠ 0 ∧ pot K p (s * s + q) + dE ≠ 0 ∧
+      0 < (K / (pot K p (s * s + q) + dE)) ^ (2 / p) - q := by
+  obtain ⟨h, _, _⟩ := repulsive_radius hK hp hq hE hs h2
+  have hn : 0 < s * s + q := by positivity
+  refine ⟨(Real.rpow_pos_of_pos (by linarith) _).ne', (Real.rpow_pos_of_pos hn _).ne', ?_, by linarith⟩
+  have := pot_pos (p := p) hK hn
+  linarith
+
+/-- **No arithmetic failure, attractive branch** (from the position `s' ≤ 0` reached after the downhill
+stretch): denominators non-zero, square-root argument non-negative. -/
+theorem attractive_total {K p s' q dE : ℝ} (hK : K < 0) (hp : 0 < p) (hq : 0 < q) (hE : 0 ≤ dE)
+    (h2 : pot K p (s' * s' + q) + dE < 0) :
+    (s' * s' + q) ^ (p / 2) ≠ 0 ∧ pot K p (s' * s' + q) + dE ≠ 0 ∧
+      0 ≤ (K / (pot K p (s' * s' + q) + dE)) ^ (2 / p) - q := by
+  obtain ⟨h, _⟩ := attractive_radius hK hp hq hE h2
+  have hn : 0 < s' * s' + q := by nlinarith [mul_self_nonneg s']
+  exact ⟨(Real.rpow_pos_of_pos hn _).ne', h2.ne, by nlinarith [mul_self_nonneg s']⟩
+
+/-! ## Cell bounding potential: constant bounding rate -/
+
+/-- **Cell bound: the returned distance inverts the (linear) bounding energy `x ↦ rate·x`; `inf` exactly
+when that energy never increases.** -/
+theorem cellBounding_spec {rate dE : ℝ} (hE : 0 < dE) :
+    (∀ d, cellBounding rate dE = some d → 0 ≤ d ∧ uphill (fun x => rate * x) 0 d = dE) ∧
+    (cellBounding rate dE = none ↔ ∀ d, 0 ≤ d → uphill (fun x => rate * x) 0 d < dE) := by
+  unfold cellBounding
+  constructor
+  · intro d h
+    split_ifs at h with h1
+    have hd : d = dE / rate := (Option.some.inj h).symm
+    have h0 : 0 ≤ d := by rw [hd]; exact div_nonneg hE.le h1.le
+    refine ⟨h0, ?_⟩
+    rw [uphill_mono (fun x _ y _ hxy => mul_le_mul_of_nonneg_left hxy h1.le) h0, hd]
+    field_simp; ring
+  · constructor
+    · intro h d hd
+      split_ifs at h with h1
+      rw [uphill_anti (fun x _ y _ hxy => mul_le_mul_of_nonpos_left hxy (not_lt.1 h1)) hd]; exact hE
+    · intro h
+      by_contra hne
+      split_ifs at hne with h1
+      · have h0 : 0 ≤ dE / rate := div_nonneg hE.le h1.le
+        have := h (dE / rate) h0
+        rw [uphill_mono (fun x _ y _ hxy => mul_le_mul_of_nonneg_left hxy h1.le) h0] at this
+        have e : rate * (dE / rate) - rate * 0 = dE := by field_simp; ring
+        linarith
+      · exact hne rfl
+
+
+/-! ## C routine of the periodic `1/r` bound, repulsive sign: laps + remainder invert the uphill energy
+of the minimum-image path -/
+
+/-- the remainder climb starting at a box face is the inverse-power routine (power 1) from `s = L/2` -/
+theorem face_climb {K L q r : ℝ} (hK : 0 < K) (hL : 0 < L) (hq : 0 < q) (hr0 : 0 ≤ r)
+    (hr : r < cbPerLap K L q) :
+    let dr := L / 2 - Real.sqrt ((K / (cbPot K (L / 2) q + r)) * (K / (cbPot K (L / 2) q + r)) - q)
+    0 ≤ dr ∧ dr < L / 2 ∧ upP K L q dr - upP K L q 0 = r := by
+  intro dr
+  have hc := (cbPerLap_pos_of_pos hK hL hq).1
+  rw [hc, cbPot_eq_pot, cbPot_eq_pot] at hr
+  have hd : dispRepulsive K 1 (L / 2) q r = some dr := by
+    simp only [dispRepulsive, if_neg (not_le.2 (half_pos hL)), if_pos hr, rpow_two_div_one, dr,
+      cbPot_eq_pot]
+  obtain ⟨a, b, c, _⟩ := repulsive_some hK one_pos hq hr0 hd
+  exact ⟨a, b, c⟩
+
+/-- one whole lap starting at a box face accumulates the climb per lap (`K > 0`) -/
+theorem lap_from_face {K L sx q : ℝ} {g : ℝ → ℝ} (hK : 0 < K) (hL : 0 < L) (hq : 0 < q)
+    (hg : MinImage K L sx q g) :
+    uphill g (sx + L / 2) (sx + L / 2 + L) = cbPerLap K L q ∧
+      BoundedVariationOn g (Icc (sx + L / 2) (sx + L / 2 + L)) := by
+  obtain ⟨s1, b1⟩ := (hg.up_stretch 1 (a := sx + L / 2) (x := sx + L / 2) (y := sx + L)
+    (by push_cast; ring) le_rfl (by linarith) (by linarith)).1
+    (path_monoOn_of_pos hK one_pos hq (by linarith))
+  obtain ⟨s2, b2⟩ := (hg.dn_stretch 1 (a := sx + L) (x := sx + L) (y := sx + L / 2 + L)
+    (by push_cast; ring) le_rfl (by linarith) (by linarith)).2
+    (path_antiOn_of_pos hK one_pos hq (by linarith))
+  refine ⟨?_, bv_add (by linarith) (by linarith) b1 b2⟩
+  rw [uphill_add (b := sx + L) (by linarith) (by linarith) b1 b2, s1, s2,
+    (cbPerLap_pos_of_pos hK hL hq).1]
+  have e1 : sx + L - (sx + L / 2) = L / 2 := by ring
+  have e2 : sx + L / 2 - (sx + L / 2) = 0 := by ring
+  rw [e1, e2, upP_half, upP_zero]; ring
+
+/-- **Periodic `1/r` bound, repulsive charges: the C routine's distance (whole-box laps plus remainder)
+inverts the uphill energy accumulated along the minimum-image path.**  For every separation inside the
+box (`-L/2 ≤ sx ≤ L/2`, `q > 0`) and every budget `dE ≥ 0` the returned distance is non-negative and
+the positive variation of the minimum-image energy `g` over it equals the budget. -/
+theorem cb_repulsive_inverts {K L sx q dE : ℝ} {g : ℝ → ℝ} (hK : 0 < K) (hL : 0 < L) (hq : 0 < q)
+    (hs1 : -(L / 2) ≤ sx) (hs2 : sx ≤ L / 2) (hE : 0 ≤ dE) (hg : MinImage K L sx q g) :
+    0 ≤ cbDisplacement K L sx q dE ∧ uphill g 0 (cbDisplacement K L sx q dE) = dE := by
+  obtain ⟨hc_eq, hc⟩ := cbPerLap_pos_of_pos hK hL hq
+  obtain ⟨hn0, hr0, hrc, hT⟩ := cb_laps_split (K := K) (L := L) (sx := sx) (q := q) hc hE
+  obtain ⟨m, hm⟩ := Int.eq_ofNat_of_zero_le hn0
+  have hnm : ((⌊dE / cbPerLap K L q⌋ : ℤ) : ℝ) = (m : ℝ) := by rw [hm]; simp
+  rw [hT]
+  simp only [hnm] at hr0 hrc ⊢
+  set c := cbPerLap K L q with hcdef
+  set r := dE - (m : ℝ) * c with hrdef
+  have hdE : dE = m * c + r := by rw [hrdef]; ring
+  have hmL : (0:ℝ) ≤ m * L := mul_nonneg (Nat.cast_nonneg m) hL.le
+  obtain ⟨lap1, lapbv⟩ := lap_from_face hK hL hq hg
+  have upm : ∀ {u v : ℝ}, v ≤ L / 2 → MonotoneOn (upP K L q) (Icc u v) :=
+    fun hv => path_monoOn_of_pos hK one_pos hq hv
+  have dnm : ∀ {u v : ℝ}, 0 ≤ u → AntitoneOn (dnP K q) (Icc u v) :=
+    fun hu => path_antiOn_of_pos hK one_pos hq hu
+  simp only [cbRemainder, if_pos hK]
+  by_cases hsx : sx ≤ 0
+  · -- in front of the nearest image: downhill to the box face, laps, climb the remainder
+    rw [if_pos hsx]
+    obtain ⟨hd0, hd1, hdr⟩ := face_climb hK hL hq hr0 hrc
+    set dr := L / 2 - Real.sqrt ((K / (cbPot K (L / 2) q + r)) * (K / (cbPot K (L / 2) q + r)) - q)
+    have hF : 0 ≤ sx + L / 2 := by linarith
+    obtain ⟨s1, b1⟩ := (hg.dn_stretch 0 (a := sx) (x := 0) (y := sx + L / 2)
+      (by push_cast; ring) hsx hF le_rfl).2 (dnm (by linarith))
+    obtain ⟨s2, b2⟩ := uphill_laps hg.per hL.le lapbv m
+    obtain ⟨s3, b3⟩ := (hg.up_stretch (m + 1) (a := sx + L / 2 + m * L) (x := sx + L / 2 + m * L)
+      (y := sx + L / 2 + m * L + dr) (by push_cast; ring) le_rfl (by linarith) (by linarith)).1
+      (upm (by linarith))
+    have eT : (m : ℝ) * L + (L / 2 + sx + dr) = sx + L / 2 + m * L + dr := by ring
+    refine ⟨by rw [eT]; linarith, ?_⟩
+    rw [eT, uphill_add (b := sx + L / 2 + m * L) (by linarith) (by linarith)
+        (bv_add hF (by linarith) b1 b2) b3,
+      uphill_add (b := sx + L / 2) hF (by linarith) b1 b2, s1, s2, s3, lap1]
+    have e1 : sx + L / 2 + m * L + dr - (sx + L / 2 + m * L) = dr := by ring
+    have e2 : sx + L / 2 + m * L - (sx + L / 2 + m * L) = 0 := by ring
+    rw [e1, e2, hdr, hdE]; ring
+  · rw [if_neg hsx]
+    have hsx' : 0 < sx := not_le.1 hsx
+    have he1 : cbPot K 0 q - cbPot K sx q = upP K L q (L / 2) - upP K L q (L / 2 - sx) := by
+      rw [upP_half, upP_at]
+    -- the first stretch `[0, sx]`: climb to the closest approach
+    obtain ⟨sA, bA⟩ := (hg.up_stretch 0 (a := sx - L / 2) (x := 0) (y := sx)
+      (by push_cast; ring) (by linarith) hsx'.le (by linarith)).1 (upm (by linarith))
+    have eA1 : sx - (sx - L / 2) = L / 2 := by ring
+    have eA2 : 0 - (sx - L / 2) = L / 2 - sx := by ring
+    rw [eA1, eA2] at sA
+    -- downhill to the box face
+    obtain ⟨sB, bB⟩ := (hg.dn_stretch 0 (a := sx) (x := sx) (y := sx + L / 2)
+      (by push_cast; ring) le_rfl (by linarith) le_rfl).2 (dnm (by linarith))
+    by_cases hbig : r ≥ cbPot K 0 q - cbPot K sx q
+    · -- the remainder budget carries over the closest approach
+      rw [if_pos hbig]
+      have hr0' : 0 ≤ r - (cbPot K 0 q - cbPot K sx q) := by linarith
+      have hcur : cbPot K sx q ≤ cbPot K 0 q := by
+        rw [cbPot_eq_pot, cbPot_eq_pot]
+        exact pot_anti hK one_pos (by linarith) (by nlinarith)
+      have hrc' : r - (cbPot K 0 q - cbPot K sx q) < c := by rw [hc_eq] at hrc ⊢; linarith
+      obtain ⟨hd0, hd1, hdr⟩ := face_climb hK hL hq hr0' hrc'
+      set r' := r - (cbPot K 0 q - cbPot K sx q)
+      set dr := L / 2 - Real.sqrt ((K / (cbPot K (L / 2) q + r')) * (K / (cbPot K (L / 2) q + r')) - q)
+      obtain ⟨s2, b2⟩ := uphill_laps hg.per hL.le lapbv m
+      obtain ⟨s3, b3⟩ := (hg.up_stretch (m + 1) (a := sx + L / 2 + m * L) (x := sx + L / 2 + m * L)
+        (y := sx + L / 2 + m * L + dr) (by push_cast; ring) le_rfl (by linarith) (by linarith)).1
+        (upm (by linarith))
+      have eT : (m : ℝ) * L + (sx + L / 2 + dr) = sx + L / 2 + m * L + dr := by ring
+      have bAB := bv_add hsx'.le (by linarith : sx ≤ sx + L / 2) bA bB
+      refine ⟨by rw [eT]; linarith, ?_⟩
+      rw [eT, uphill_add (b := sx + L / 2 + m * L) (by linarith) (by linarith)
+          (bv_add (by linarith) (by linarith) bAB b2) b3,
+        uphill_add (b := sx + L / 2) (by linarith) (by linarith) bAB b2,
+        uphill_add (b := sx) hsx'.le (by linarith) bA bB, sA, sB, s2, s3, lap1]
+      have e1 : sx + L / 2 + m * L + dr - (sx + L / 2 + m * L) = dr := by ring
+      have e2 : sx + L / 2 + m * L - (sx + L / 2 + m * L) = 0 := by ring
+      rw [e1, e2, hdr, ← he1, hdE]; ring
+    · -- the remainder budget ends on the first climb: whole laps from the start, then the climb
+      rw [if_neg hbig]
+      have hlt : r < cbPot K 0 q - cbPot K sx q := not_le.1 hbig
+      obtain ⟨hd, hd0, hd1, _⟩ := cb_remainder_first_climb (L := L) hK hq hsx' hr0 hlt
+      simp only [cbRemainder, if_pos hK, if_neg hsx, if_neg hbig] at hd hd0 hd1
+      set d0 := sx - Real.sqrt ((K / (cbPot K sx q + r)) * (K / (cbPot K sx q + r)) - q)
+      obtain ⟨_, _, hval, _⟩ := repulsive_some hK one_pos hq hr0 hd
+      -- one lap from the start
+      obtain ⟨sC, bC⟩ := (hg.up_stretch 1 (a := sx + L / 2) (x := sx + L / 2) (y := L)
+        (by push_cast; ring) le_rfl (by linarith) (by linarith)).1 (upm (by linarith))
+      have eC1 : L - (sx + L / 2) = L / 2 - sx := by ring
+      have eC2 : sx + L / 2 - (sx + L / 2) = 0 := by ring
+      rw [eC1, eC2] at sC
+      have bAB := bv_add hsx'.le (by linarith : sx ≤ sx + L / 2) bA bB
+      have bL : BoundedVariationOn g (Icc 0 (0 + L)) := by
+        rw [zero_add]; exact bv_add (by linarith) (by linarith) bAB bC
+      have lap0 : uphill g 0 (0 + L) = c := by
+        rw [zero_add, uphill_add (b := sx + L / 2) (by linarith) (by linarith) bAB bC,
+          uphill_add (b := sx) hsx'.le (by linarith) bA bB, sA, sB, sC, hc_eq,
+          upP_half, upP_at, upP_zero]
+        ring
+      obtain ⟨s2, b2⟩ := uphill_laps hg.per hL.le bL m
+      rw [zero_add] at s2 b2
+      obtain ⟨s3, b3⟩ := (hg.up_stretch m (a := sx - L / 2 + m * L) (x := m * L) (y := m * L + d0)
+        rfl (by linarith) (by linarith) (by linarith)).1 (upm (by linarith))
+      have e1 : (m : ℝ) * L + d0 - (sx - L / 2 + m * L) = L / 2 - sx + d0 := by ring
+      have e2 : (m : ℝ) * L - (sx - L / 2 + m * L) = L / 2 - sx + 0 := by ring
+      rw [e1, e2, upP_shift, upP_shift, hval] at s3
+      refine ⟨by linarith, ?_⟩
+      rw [uphill_add (b := (m : ℝ) * L) hmL (by linarith) b2 b3, s2, s3, lap0, hdE]
+
+
+/-- non-vacuity of `MinImage`: the minimum-image energy exists for every box, separation and charge
+product (nearest image by rounding `(sx - x) / L` to the nearest integer) -/
+theorem minImage_exists (K L sx q : ℝ) (hL : 0 < L) : ∃ g, MinImage K L sx q g := by
+  refine ⟨fun x => cbPot K ((sx - x) - L * round ((sx - x) / L)) q, ?_, ?_⟩
+  · intro x
+    have h : (sx - (x + L)) / L = (sx - x) / L - 1 := by field_simp; ring
+    simp only [h, round_sub_one]
+    push_cast
+    congr 1; ring
+  · intro x hx
+    set u := sx - x with hu
+    have hround := abs_sub_round (u / L)
+    set ρ := round (u / L) with hρ
+    have ht : |u / L| ≤ 1 / 2 := by
+      rw [abs_div, abs_of_pos hL, div_le_iff₀ hL]; linarith
+    rw [abs_le] at hround ht hx
+    have h1 : (-1 : ℝ) ≤ ρ := by linarith [hround.2, ht.1]
+    have h2 : (ρ : ℝ) ≤ 1 := by linarith [hround.1, ht.2]
+    have h3 : ρ = -1 ∨ ρ = 0 ∨ ρ = 1 := by
+      have a : (-1 : ℤ) ≤ ρ := by exact_mod_cast h1
+      have b : ρ ≤ 1 := by exact_mod_cast h2
+      omega
+    have key : (u - L * ρ) * (u - L * ρ) = u * u := by
+      rcases h3 with e | e | e
+      · rw [e] at hround ⊢
+        have : u / L = -(1 / 2) := by push_cast at hround; linarith [hround.2, ht.1]
+        have hu' : u = -(L / 2) := by field_simp at this; linarith
+        push_cast; rw [hu']; ring
+      · rw [e]; push_cast; ring
+      · rw [e] at hround ⊢
+        have : u / L = 1 / 2 := by push_cast at hround; linarith [hround.1, ht.2]
+        have hu' : u = L / 2 := by field_simp at this; linarith
+        push_cast; rw [hu']; ring
+    show cbPot K (u - L * ρ) q = cbPot K u q
+    unfold cbPot; rw [key]
+
+
+/-! ## C routine of the periodic `1/r` bound, attractive sign -/
+
+/-- the remainder climb starting at a closest approach is the inverse-power routine (power 1,
+attractive) from `s = 0` -/
+theorem closest_climb {K L q r : ℝ} (hK : K < 0) (hL : 0 < L) (hq : 0 < q) (hr0 : 0 ≤ r)
+    (hr : r < cbPerLap K L q) :
+    let dd := Real.sqrt ((K / (cbPot K 0 q + r)) * (K / (cbPot K 0 q + r)) - q)
+    0 ≤ dd ∧ dd < L / 2 ∧ dnP K q dd - dnP K q 0 = r := by
+  intro dd
+  have hc := (cbPerLap_pos_of_neg hK hL hq).1
+  rw [hc] at hr
+  have hneg : cbPot K (L / 2) q < 0 := by
+    rw [cbPot_eq_pot]; exact pot_neg_of_neg hK (by nlinarith)
+  have hlt : pot K 1 (0 * 0 + q) + r < 0 := by rw [← cbPot_eq_pot]; linarith
+  have hd : dispAttractive K 1 0 q r = some (0 + (0 + dd)) := by
+    simp only [dispAttractive, lt_irrefl, if_false, if_neg (not_le.2 hlt), rpow_two_div_one, dd,
+      cbPot_eq_pot]
+  obtain ⟨a, b, _⟩ := attractive_some hK one_pos hq hr0 hd
+  rw [max_self] at a b
+  have e : (0:ℝ) + (0 + dd) = dd := by ring
+  rw [e] at a b
+  change dnP K q dd - dnP K q 0 = r at b
+  refine ⟨a, ?_, b⟩
+  by_contra hge
+  have hge' : L / 2 ≤ dd := not_lt.1 hge
+  have hm := path_monoOn_of_neg (a := L / 2) (b := dd) (s := 0) hK one_pos hq (by linarith)
+    (left_mem_Icc.2 hge') (right_mem_Icc.2 hge') hge'
+  change dnP K q (L / 2) ≤ dnP K q dd at hm
+  rw [dnP_half] at hm
+  have : dnP K q dd = cbPot K 0 q + r := by rw [← dnP_zero]; linarith
+  linarith
+
+/-- one whole lap starting at a closest approach accumulates the climb per lap (`K < 0`) -/
+theorem lap_from_closest {K L sx q : ℝ} {g : ℝ → ℝ} (hK : K < 0) (hL : 0 < L) (hq : 0 < q)
+    (hg : MinImage K L sx q g) (k : ℕ) :
+    uphill g (sx + k * L) (sx + k * L + L) = cbPerLap K L q ∧
+      BoundedVariationOn g (Icc (sx + k * L) (sx + k * L + L)) := by
+  obtain ⟨s1, b1⟩ := (hg.dn_stretch k (a := sx + k * L) (x := sx + k * L) (y := sx + k * L + L / 2)
+    rfl le_rfl (by linarith) le_rfl).1 (path_monoOn_of_neg hK one_pos hq (by linarith))
+  obtain ⟨s2, b2⟩ := (hg.up_stretch (k + 1) (a := sx + k * L + L / 2) (x := sx + k * L + L / 2)
+    (y := sx + k * L + L) (by push_cast; ring) le_rfl (by linarith) (by linarith)).2
+    (path_antiOn_of_neg hK one_pos hq (by linarith))
+  refine ⟨?_, bv_add (by linarith) (by linarith) b1 b2⟩
+  rw [uphill_add (b := sx + k * L + L / 2) (by linarith) (by linarith) b1 b2, s1, s2,
+    (cbPerLap_pos_of_neg hK hL hq).1]
+  have e1 : sx + k * L + L / 2 - (sx + k * L) = L / 2 := by ring
+  have e2 : sx + k * L - (sx + k * L) = 0 := by ring
+  rw [e1, e2, dnP_half, dnP_zero]; ring
+
+/-- **Periodic `1/r` bound, opposite charges: the C routine's distance (whole-box laps plus remainder)
+inverts the uphill energy accumulated along the minimum-image path.** -/
+theorem cb_attractive_inverts {K L sx q dE : ℝ} {g : ℝ → ℝ} (hK : K < 0) (hL : 0 < L) (hq : 0 < q)
+    (hs1 : -(L / 2) ≤ sx) (hs2 : sx ≤ L / 2) (hE : 0 ≤ dE) (hg : MinImage K L sx q g) :
+    0 ≤ cbDisplacement K L sx q dE ∧ uphill g 0 (cbDisplacement K L sx q dE) = dE := by
+  obtain ⟨hc_eq, hc⟩ := cbPerLap_pos_of_neg hK hL hq
+  obtain ⟨hn0, hr0, hrc, hT⟩ := cb_laps_split (K := K) (L := L) (sx := sx) (q := q) hc hE
+  obtain ⟨m, hm⟩ := Int.eq_ofNat_of_zero_le hn0
+  have hnm : ((⌊dE / cbPerLap K L q⌋ : ℤ) : ℝ) = (m : ℝ) := by rw [hm]; simp
+  rw [hT]
+  simp only [hnm] at hr0 hrc ⊢
+  set c := cbPerLap K L q with hcdef
+  set r := dE - (m : ℝ) * c with hrdef
+  have hdE : dE = m * c + r := by rw [hrdef]; ring
+  have hmL : (0:ℝ) ≤ m * L := mul_nonneg (Nat.cast_nonneg m) hL.le
+  have upa : ∀ {u v : ℝ}, v ≤ L / 2 → AntitoneOn (upP K L q) (Icc u v) :=
+    fun hv => path_antiOn_of_neg hK one_pos hq hv
+  have dnm : ∀ {u v : ℝ}, 0 ≤ u → MonotoneOn (dnP K q) (Icc u v) :=
+    fun hu => path_monoOn_of_neg hK one_pos hq hu
+  have hKn : ¬ K > 0 := not_lt.2 hK.le
+  simp only [cbRemainder, if_neg hKn]
+  by_cases hsx : sx > 0
+  · -- behind the nearest image: downhill to the closest approach, laps, climb the remainder
+    rw [if_pos hsx]
+    obtain ⟨hd0, hd1, hdr⟩ := closest_climb hK hL hq hr0 hrc
+    set dd := Real.sqrt ((K / (cbPot K 0 q + r)) * (K / (cbPot K 0 q + r)) - q)
+    obtain ⟨s1, b1⟩ := (hg.up_stretch 0 (a := sx - L / 2) (x := 0) (y := sx)
+      (by push_cast; ring) (by linarith) hsx.le (by linarith)).2 (upa (by linarith))
+    obtain ⟨lap1, lapbv⟩ := lap_from_closest hK hL hq hg 0
+    simp only [Nat.cast_zero, zero_mul, add_zero] at lap1 lapbv
+    obtain ⟨s2, b2⟩ := uphill_laps hg.per hL.le lapbv m
+    obtain ⟨s3, b3⟩ := (hg.dn_stretch m (a := sx + m * L) (x := sx + m * L)
+      (y := sx + m * L + dd) rfl le_rfl (by linarith) (by linarith)).1 (dnm (by linarith))
+    have eT : (m : ℝ) * L + (sx + (0 + dd)) = sx + m * L + dd := by ring
+    refine ⟨by rw [eT]; linarith, ?_⟩
+    rw [eT, uphill_add (b := sx + m * L) (by linarith) (by linarith)
+        (bv_add hsx.le (by linarith) b1 b2) b3,
+      uphill_add (b := sx) hsx.le (by linarith) b1 b2, s1, s2, s3, lap1]
+    have e1 : sx + m * L + dd - (sx + m * L) = dd := by ring
+    have e2 : sx + m * L - (sx + m * L) = 0 := by ring
+    rw [e1, e2, hdr, hdE]; ring
+  · rw [if_neg hsx]
+    have hsx' : sx ≤ 0 := not_lt.1 hsx
+    -- the first stretch `[0, sx + L/2]`: climb away from the nearest image to the box face
+    obtain ⟨sA, bA⟩ := (hg.dn_stretch 0 (a := sx) (x := 0) (y := sx + L / 2)
+      (by push_cast; ring) hsx' (by linarith) le_rfl).1 (dnm (by linarith))
+    have eA1 : sx + L / 2 - sx = L / 2 := by ring
+    have eA2 : 0 - sx = -sx := by ring
+    rw [eA1, eA2, dnP_half, dnP_at] at sA
+    -- downhill from the face to the next closest approach
+    obtain ⟨sB, bB⟩ := (hg.up_stretch 1 (a := sx + L / 2) (x := sx + L / 2) (y := sx + L)
+      (by push_cast; ring) le_rfl (by linarith) (by linarith)).2 (upa (by linarith))
+    by_cases hbig : r ≥ cbPot K (L / 2) q - cbPot K sx q
+    · rw [if_pos hbig]
+      have hr0' : 0 ≤ r - (cbPot K (L / 2) q - cbPot K sx q) := by linarith
+      have hcur : cbPot K sx q ≤ cbPot K (L / 2) q := by
+        rw [cbPot_eq_pot, cbPot_eq_pot]
+        exact pot_mono_of_neg hK one_pos (by nlinarith [mul_self_nonneg sx]) (by nlinarith)
+      have hrc' : r - (cbPot K (L / 2) q - cbPot K sx q) < c := by rw [hc_eq] at hrc ⊢; linarith
+      obtain ⟨hd0, hd1, hdr⟩ := closest_climb hK hL hq hr0' hrc'
+      set r' := r - (cbPot K (L / 2) q - cbPot K sx q)
+      set dd := Real.sqrt ((K / (cbPot K 0 q + r')) * (K / (cbPot K 0 q + r')) - q)
+      obtain ⟨lap1, lapbv⟩ := lap_from_closest hK hL hq hg 1
+      simp only [Nat.cast_one, one_mul] at lap1 lapbv
+      obtain ⟨s2, b2⟩ := uphill_laps hg.per hL.le lapbv m
+      obtain ⟨s3, b3⟩ := (hg.dn_stretch (m + 1) (a := sx + L + m * L) (x := sx + L + m * L)
+        (y := sx + L + m * L + dd) (by push_cast; ring) le_rfl (by linarith) (by linarith)).1
+        (dnm (by linarith))
+      have eT : (m : ℝ) * L + (sx + L + (0 + dd)) = sx + L + m * L + dd := by ring
+      have bAB := bv_add (by linarith : (0:ℝ) ≤ sx + L / 2) (by linarith : sx + L / 2 ≤ sx + L) bA bB
+      refine ⟨by rw [eT]; linarith, ?_⟩
+      rw [eT, uphill_add (b := sx + L + m * L) (by linarith) (by linarith)
+          (bv_add (by linarith) (by linarith) bAB b2) b3,
+        uphill_add (b := sx + L) (by linarith) (by linarith) bAB b2,
+        uphill_add (b := sx + L / 2) (by linarith) (by linarith) bA bB, sA, sB, s2, s3, lap1]
+      have e1 : sx + L + m * L + dd - (sx + L + m * L) = dd := by ring
+      have e2 : sx + L + m * L - (sx + L + m * L) = 0 := by ring
+      rw [e1, e2, hdr, hdE]; ring
+    · rw [if_neg hbig]
+      have hlt : r < cbPot K (L / 2) q - cbPot K sx q := not_le.1 hbig
+      have hneg : cbPot K (L / 2) q < 0 := by
+        rw [cbPot_eq_pot]; exact pot_neg_of_neg hK (by nlinarith)
+      have hlt0 : pot K 1 (sx * sx + q) + r < 0 := by rw [← cbPot_eq_pot]; linarith
+      set d0 := sx + Real.sqrt ((K / (cbPot K sx q + r)) * (K / (cbPot K sx q + r)) - q) with hd0def
+      have hd : dispAttractive K 1 sx q r = some (0 + d0) := by
+        simp only [dispAttractive, if_neg hsx, if_neg (not_le.2 hlt0), rpow_two_div_one, hd0def,
+          cbPot_eq_pot]
+      obtain ⟨ha, hval, _⟩ := attractive_some hK one_pos hq hr0 hd
+      rw [max_eq_right hsx', zero_add] at ha hval
+      -- the climb ends before the box face
+      have hd1 : d0 < sx + L / 2 := by
+        by_contra hge
+        have hge' : L / 2 ≤ -sx + d0 := by linarith [not_lt.1 hge]
+        have hmm := path_monoOn_of_neg (a := L / 2) (b := -sx + d0) (s := 0) hK one_pos hq
+          (by linarith) (left_mem_Icc.2 hge') (right_mem_Icc.2 hge') hge'
+        change dnP K q (L / 2) ≤ dnP K q (-sx + d0) at hmm
+        rw [dnP_half, dnP_shift] at hmm
+        have : path K 1 sx q 0 = cbPot K sx q := by
+          unfold path; rw [nsq_zero, cbPot_eq_pot]
+        linarith
+      -- one lap from the start
+      obtain ⟨sC, bC⟩ := (hg.dn_stretch 1 (a := sx + L) (x := sx + L) (y := L)
+        (by push_cast; ring) le_rfl (by linarith) (by linarith)).1 (dnm (by linarith))
+      have eC1 : L - (sx + L) = -sx := by ring
+      have eC2 : sx + L - (sx + L) = 0 := by ring
+      rw [eC1, eC2, dnP_at, dnP_zero] at sC
+      have bAB := bv_add (by linarith : (0:ℝ) ≤ sx + L / 2) (by linarith : sx + L / 2 ≤ sx + L) bA bB
+      have bL : BoundedVariationOn g (Icc 0 (0 + L)) := by
+        rw [zero_add]; exact bv_add (by linarith) (by linarith) bAB bC
+      have lap0 : uphill g 0 (0 + L) = c := by
+        rw [zero_add, uphill_add (b := sx + L) (by linarith) (by linarith) bAB bC,
+          uphill_add (b := sx + L / 2) (by linarith) (by linarith) bA bB, sA, sB, sC, hc_eq]
+        ring
+      obtain ⟨s2, b2⟩ := uphill_laps hg.per hL.le bL m
+      rw [zero_add] at s2 b2
+      obtain ⟨s3, b3⟩ := (hg.dn_stretch m (a := sx + m * L) (x := m * L) (y := m * L + d0)
+        rfl (by linarith) (by linarith) (by linarith)).1 (dnm (by linarith))
+      have e1 : (m : ℝ) * L + d0 - (sx + m * L) = -sx + d0 := by ring
+      have e2 : (m : ℝ) * L - (sx + m * L) = -sx + 0 := by ring
+      rw [e1, e2, dnP_shift, dnP_shift, hval] at s3
+      refine ⟨by linarith, ?_⟩
+      rw [uphill_add (b := (m : ℝ) * L) hmL (by linarith) b2 b3, s2, s3, lap0, hdE]
+
+/-- **C routine of the periodic `1/r` bound, both signs.** -/
+theorem cb_inverts {K L sx q dE : ℝ} {g : ℝ → ℝ} (hK : K ≠ 0) (hL : 0 < L) (hq : 0 < q)
+    (hs1 : -(L / 2) ≤ sx) (hs2 : sx ≤ L / 2) (hE : 0 ≤ dE) (hg : MinImage K L sx q g) :
+    0 ≤ cbDisplacement K L sx q dE ∧ uphill g 0 (cbDisplacement K L sx q dE) = dE := by
+  rcases lt_or_gt_of_ne hK with h | h
+  · exact cb_attractive_inverts h hL hq hs1 hs2 hE hg
+  · exact cb_repulsive_inverts h hL hq hs1 hs2 hE hg
+
+
+/-! ## Mexican-hat potentials: the four-way case tree (generic in the radial potential) -/
+
+/-- **Mexican-hat case tree: a returned finite distance inverts the accumulated uphill energy.**
+For every radial potential that is decreasing inside and increasing outside its minimum sphere and
+whose two inversion methods are the (order-respecting) inverses on the two sides (`Hat.Valid`), every
+separation (`q > 0`: not head-on) and every budget `dE ≥ 0`: if `standard_velocity_displacement` returns
+the finite distance `d`, then `d ≥ 0` and the positive variation of the energy along `[0, d]` equals the
+budget — through all of front/behind × inside/outside, the in-place updates of the separation and the
+reach/miss alternative of `_displacement_behind_outside_sphere`. -/
+theorem hat_some {H : Hat} {q s dE d : ℝ} (hV : H.Valid q) (hE : 0 ≤ dE)
+    (h : H.disp q s dE = some d) : 0 ≤ d ∧ uphill (H.path q s) 0 d = dE := by
+  have hn : 0 ≤ s * s + q := by nlinarith [mul_self_nonneg s, hV.q_pos]
+  have hsq := Real.mul_self_sqrt hn
+  have hs0 := Real.sqrt_nonneg (s * s + q)
+  have key : Good (H.path q s) d dE := by
+    unfold Hat.disp at h
+    split_ifs at h with h1 h2 h3
+    · have hout : H.r0 * H.r0 ≤ s * s + q := by nlinarith [hV.r0_pos]
+      exact H.frontOutside_good hV h2 hout hE h
+    · have hout : H.r0 * H.r0 ≤ s * s + q := by nlinarith [hV.r0_pos]
+      exact H.behindOutside_good hV (not_le.1 h2).le hout hE h
+    · have hin : s * s + q ≤ H.r0 * H.r0 := by nlinarith [hV.r0_pos, not_le.1 h1]
+      exact H.frontInside_good hV h3 hin hE h
+    · have hin : s * s + q ≤ H.r0 * H.r0 := by nlinarith [hV.r0_pos, not_le.1 h1]
+      exact H.behindInside_good hV (not_le.1 h3).le hin hE h
+  exact ⟨key.nonneg, key.val⟩
+
+/-- **Mexican-hat case tree: `inf` exactly when the path never accumulates the budget.** -/
+theorem hat_none_iff {H : Hat} {q s dE : ℝ} (hV : H.Valid q) (hE : 0 ≤ dE) :
+    H.disp q s dE = none ↔ ∀ d, 0 ≤ d → uphill (H.path q s) 0 d < dE := by
+  constructor
+  · intro h
+    have hn : 0 ≤ s * s + q := by nlinarith [mul_self_nonneg s, hV.q_pos]
+    have hsq := Real.mul_self_sqrt hn
+    have hs0 := Real.sqrt_nonneg (s * s + q)
+    have key : Never (H.path q s) dE := by
+      unfold Hat.disp at h
+      split_ifs at h with h1 h2 h3
+      · have hout : H.r0 * H.r0 ≤ s * s + q := by nlinarith [hV.r0_pos]
+        exact H.frontOutside_never hV h2 hout h
+      · have hout : H.r0 * H.r0 ≤ s * s + q := by nlinarith [hV.r0_pos]
+        exact H.behindOutside_never hV (not_le.1 h2).le hout h
+      · have hin : s * s + q ≤ H.r0 * H.r0 := by nlinarith [hV.r0_pos, not_le.1 h1]
+        exact H.frontInside_never hV h3 hin h
+      · have hin : s * s + q ≤ H.r0 * H.r0 := by nlinarith [hV.r0_pos, not_le.1 h1]
+        exact H.behindInside_never hV (not_le.1 h3).le hin h
+    exact fun d hd => (key d hd).2
+  · intro h
+    by_contra hne
+    obtain ⟨d, hd⟩ := Option.ne_none_iff_exists'.1 hne
+    obtain ⟨h0, h1⟩ := hat_some hV hE hd
+    have := h d h0
+    linarith
+
+/-- **Displaced even-power potential** `U(r) = k (r - r0)^p`, `p` even: the hypotheses of the case-tree
+theorems hold (this is also their non-vacuity witness), hence every returned finite distance inverts
+the accumulated uphill energy. -/
+theorem evenPower_inverts {k r0 q s dE d : ℝ} {p : ℕ} (hk : 0 < k) (hr0 : 0 < r0)
+    (hp : Even p) (hp0 : p ≠ 0) (hq : 0 < q) (hE : 0 ≤ dE)
+    (h : (evenPowerHat k r0 p).disp q s dE = some d) :
+    0 ≤ d ∧ uphill ((evenPowerHat k r0 p).path q s) 0 d = dE :=
+  hat_some (evenPower_valid hk hr0 hp hp0 hq) hE h
+
+/-- a Mexican-hat potential whose outside inversion always returns a value never answers `inf` -/
+theorem hat_finite {H : Hat} (hO : ∀ y, (H.invOut y).isSome) (q s dE : ℝ) :
+    (H.disp q s dE).isSome := by
+  have fo : ∀ s cur dE, (H.frontOutside q s cur dE).isSome := fun s cur dE => by
+    simp [Hat.frontOutside, hO]
+  have fi : ∀ s dE, (H.frontInside q s dE).isSome := fun s dE => by
+    simp [Hat.frontInside, fo]
+  have bi : ∀ s cur dE, (H.behindInside q s cur dE).isSome := fun s cur dE => by
+    simp only [Hat.behindInside]; split_ifs <;> simp [fi]
+  have bo : ∀ s dE, (H.behindOutside q s dE).isSome := fun s dE => by
+    simp only [Hat.behindOutside]; split_ifs <;> simp [fo, bi]
+  unfold Hat.disp; split_ifs <;> simp [fo, fi, bi, bo]
+
+/-- the even-power potential never answers `inf` (its climb is unbounded) -/
+theorem evenPower_finite (k r0 q s dE : ℝ) (p : ℕ) : ((evenPowerHat k r0 p).disp q s dE).isSome :=
+  hat_finite (fun y => rfl) q s dE
+
+
+/-- **Lennard-Jones potential**: the case-tree theorems apply (`lj_valid`): a returned finite distance
+inverts the accumulated uphill energy, and the answer is `inf` exactly when the path never accumulates
+the budget (escape: current potential + remaining budget `≥ 0`). -/
+theorem lj_inverts {k σ q s dE : ℝ} (hk : 0 < k) (hσ : 0 < σ) (hq : 0 < q) (hE : 0 ≤ dE) :
+    (∀ d, (ljHat k σ).disp q s dE = some d → 0 ≤ d ∧ uphill ((ljHat k σ).path q s) 0 d = dE) ∧
+    ((ljHat k σ).disp q s dE = none ↔ ∀ d, 0 ≤ d → uphill ((ljHat k σ).path q s) 0 d < dE) :=
+  ⟨fun d h => hat_some (lj_valid hk hσ hq) hE h, hat_none_iff (lj_valid hk hσ hq) hE⟩
+
+
+/-- the speed only rescales the returned distance into a time: after the returned time the unit has
+moved exactly the distance computed by `standard_velocity_displacement` -/
+theorem speed_scaling {d v : ℝ} (hv : 0 < v) : (d / v) * v = d := by
+  field_simp
 
 end JF.C02
